@@ -209,7 +209,7 @@ def judgeTsParse (id : String) (fmt : TsFormat) (text : Bytes) (res dt http epoc
       let cls := match fmt with
         | .dateTime => if o ≠ some 0 then "ts-parse-offset" else "ts-parse-datetime"
         | .httpDate => "ts-parse-httpdate"
-        | .epochSeconds => if u < 0 then "ts-epoch-pre1970" else "ts-parse-epoch"
+        | .epochSeconds => if u < 0 || text.head? = some 45 then "ts-epoch-pre1970" else "ts-parse-epoch"
       some (cls, s!"text denotes {u}.{n} impl={res}")
   let sf := sf.orElse fun _ => match impl with
     | some t => judgeTexts t dt http epoch
